@@ -590,3 +590,39 @@ def empty_world(layout: str) -> dict:
     w['other_game_lumps'] = []
     w['opaque'] = {}
     return w
+
+
+# ------------------------------------------------------------------ independent lump extractor
+def read_lumps(data: bytes) -> dict:
+    """lump name -> (version, decompressed bytes) of a .bsp file, decoded without srctools."""
+    magic, version = struct.unpack_from('<4si', data, 0)
+    assert magic in (b'VBSP', b'FART'), magic
+    l4d2 = version == 21 and data[8:12] == b'\0\0\0\0'
+    out = {}
+    for idx in range(64):
+        a, b, c, d = struct.unpack_from('<4i', data, 8 + 16 * idx)
+        if l4d2:
+            ver, off, ln, four = a, b, c, d
+        else:
+            off, ln, ver, four = a, b, c, d
+        blob = data[off:off + ln]
+        if four > 0 and blob[:4] == b'LZMA':
+            blob = lzma_unpack(blob)
+        out[LUMP_NAMES[idx]] = (ver, blob)
+    out['_version'] = version
+    out['_revision'] = struct.unpack_from('<i', data, 8 + 64 * 16)[0]
+    return out
+
+
+def unrle_row(blob: bytes, start: int, nbytes: int) -> bytes:
+    """Independent decoder of one coded vis row starting at `start` (Valve's DecompressVis)."""
+    out = bytearray()
+    i = start
+    while len(out) < nbytes:
+        if blob[i]:
+            out.append(blob[i])
+            i += 1
+        else:
+            out += bytes(blob[i + 1])
+            i += 2
+    return bytes(out[:nbytes])
